@@ -322,3 +322,28 @@ Definition b2z (b : bool) : Z := if b then 1 else 0.
 Definition sb (s : st) : Z := match lock s with BSend _ => 1 | _ => 0 end.
 
 Definition sum_sz (l : list (nat * Z)) : Z := sumZ (map snd l).
+
+(* ---- statements' vocabulary (definitions only) ------------------------------------------------ *)
+(* the S1-free part of the space: every size offered to a persistent queue fits the capacity
+   (the in-memory queue rejects larger ones itself, errSizeTooLarge) *)
+Definition fit_label (c : cfg) (l : label) : Prop :=
+  match l with
+  | LOffer _ sz => kind c = Pers -> sz <= cap c
+  | _ => True
+  end.
+
+Definition reachable_fit (c : cfg) (s : st) : Prop :=
+  exists ls, Forall (fun l => wf_label c l /\ fit_label c l) ls /\ run c init ls = Some s.
+
+(* FULL statement of the "no lost wake-up" clause: in a state from which no thread of the queue can
+   move any more (quiescent), every producer that called Offer has returned — nobody is left blocked
+   (in particular not on an empty queue, and not after its context ended). *)
+Definition no_lost_wakeup_statement (c : cfg) : Prop :=
+  forall s, reachable c s -> quiescent c s -> all_returned s.
+
+(* what "accepted" means for the producer of an id that is in [acc] *)
+Definition accepted_pstate (c : cfg) (v : pstate) : Prop :=
+  v = PAwait \/ v = PRet ROk \/ (exists e, v = PRet (RRes e)) \/ (v = PRet RCtx /\ wfr_eff c = true).
+
+Definition refused_result (r : result) : bool :=
+  match r with RFull | RTooLarge | RInvalid => true | _ => false end.
